@@ -5,10 +5,12 @@ package main
 //	c08 facts  -extra <repo> -meta F        structural facts (facts.go)
 //	c08 oracle -seed S -n <children> -tier T -ops F -out F -meta F [-only i]
 //	c08 child  <jobs.json> <out.json> <dir>  (re-exec'd by oracle)
-//	c08 pstate -seed S -n <parallel> -tier T -ops F -out F -meta F [-extra "focus=fam,..;scale=k;heavy=1;acts=full|off;replay=file"]
+//	c08 pstate -seed S -n <parallel> -tier T -ops F -out F -meta F [-extra "focus=fam,..;scale=k;heavy=1;acts=full|off;conc=full|off;racebin=file;replay=file"]
 //	                                         process-state histories over sibling groups (pstate.go), over all step
 //	                                         kinds: streaming sessions, CompileFile, CompileSSA, Compute, Garble/Eval,
 //	                                         Marshal/Parse between compilations (pacts.go)
+//	                                         and with CONCURRENT history elements: k = 2..8 steps at the same time,
+//	                                         one history under the race detector (pconc.go)
 //	c08 pchild <spec.json> <out.json> <dir>  (one history in its own process, re-exec'd by pstate)
 
 import (
